@@ -261,7 +261,9 @@ parse_next_record_header:
         rc = tls13ParseChangeCipherSpec(ssl, &pb, requiredLen);
         HANDLE_PARSE_RC(rc, SSL_ALERT_ILLEGAL_PARAMETER);
         psTraceInfo("Ignoring change_cipher_spec...\n");
-        parsedBytes += pb.buf.start - *in;
+        /* Bytes of ignored records in front of the next record header
+           (an offset from *in, not an increment). */
+        parsedBytes = pb.buf.start - *in;
         if (pb.buf.start != pb.buf.end)
         {
             /* There is more data to be parsed */
